@@ -190,6 +190,9 @@ impl Builder {
 
             let f = f.clone();
 
+            #[cfg(tokio_rs_loom_verif)]
+            crate::verif::emit(|| format!("BEGIN {}", execution.path.verif_dump()));
+
             scheduler.run(&mut execution, move || {
                 f();
 
@@ -200,6 +203,9 @@ impl Builder {
 
                 rt::thread_done();
             });
+
+            #[cfg(tokio_rs_loom_verif)]
+            crate::verif::emit(|| format!("END {}", execution.path.verif_dump()));
 
             execution.check_for_leaks();
 
